@@ -24,6 +24,7 @@ Fixpoint utree_eqb (a b : utree) : bool :=
 Definition result_eqb (a b : result) : bool :=
   match a, b with
   | RErr, RErr => true
+  | RUnlinked, RUnlinked => true
   | RNil, RNil => true
   | ROk x, ROk y => utree_eqb x y
   | _, _ => false
@@ -31,49 +32,183 @@ Definition result_eqb (a b : result) : bool :=
 
 (* what the harness saw of one completed call *)
 Inductive obs :=
-| ORes (r : result)   (* SchemaCache.Schema: error, or the unfolding of the returned schema *)
-| OSame (b : bool).   (* a codec call: did it return what it returns when run alone *)
+| ORes (r : result) (id : N)
+    (* SchemaCache.Schema: error / nil / the unfolding of the returned schema, and which object
+       was returned: id = the index, in order of first appearance over (thread, call), of the
+       returned pointer among all schemas returned in this case (0 when no schema) *)
+| OCall (cls solo_cls : N) (same : bool).
+    (* a codec call (encode / decode / query-decode): its class (0 returned normally, 1 returned an
+       error, 2 panicked), the class of the same call run alone on a fresh codec, and whether it
+       returned exactly what it returns alone (encode output bytes / decoded message / error text) *)
 
-(* depth, type universe, calls per thread, schedule (incl. the drain), the hook each
-   scheduled thread was at after its step, the results of the completed calls *)
+(* ---- exposed oneofs -------------------------------------------------------------------- *)
+(* A proto oneof with (j5.ext.v1.oneof).expose of message M is reflected as a schema of its
+   own, named M_<oneof>.  messageProperties registers it through refTo BEFORE the fields of M
+   and links it at once (refto.lookup, refto.insert, ref.linked — exactly what the machine
+   does for a reference to a type without references); the member fields are then processed
+   in M's own field loop, in field order, and appended to the oneof's properties.  So in the
+   type universe handed to the machine M refers first to its exposed oneofs (leaf nodes),
+   then to all its field types, and the machine performs the cache operations of the real
+   build in the real order.  What a caller sees — the members grouped under the oneof
+   property, which stands where the first member stood — is this view of the machine's
+   result.  (Not modelled: the error "placeholder already exists" when the name M_<oneof>
+   is already registered, which needs a message of that very name in the same package.)
+   expo: per message, in order of declaration, (name of the oneof, position of its first
+   member among the fields of M, number of members); members are consecutive fields. *)
+Definition expo := list (name * list (name * N * N)).
+
+Fixpoint expo_of (ex : expo) (n : name) : list (name * N * N) :=
+  match ex with
+  | [] => []
+  | (m, gs) :: r => if N.eqb m n then gs else expo_of r n
+  end.
+
+(* the oneof whose first member is field p, with its position among the oneofs of the message *)
+Fixpoint group_at (gs : list (name * N * N)) (i : nat) (p : nat) : option (nat * nat) :=
+  match gs with
+  | [] => None
+  | (_, start, len) :: r => if Nat.eqb (N.to_nat start) p then Some (i, N.to_nat len) else group_at r (S i) p
+  end.
+
+(* fields from position p on; os = the subtrees of the message's oneof cells *)
+Fixpoint assemble (fuel : nat) (gs : list (name * N * N)) (os fs : list utree) (p : nat) : list utree :=
+  match fuel with
+  | O => []
+  | S fuel' =>
+      match fs with
+      | [] => []
+      | f :: fr =>
+          match group_at gs 0 p with
+          | Some (i, len) =>
+              (match nth i os UBad with
+               | UNode o _ => UNode o (firstn len fs)      (* linked: its properties are the members *)
+               | other => other                             (* cut / not linked: nothing below it is seen *)
+               end) :: assemble fuel' gs os (skipn len fs) (p + len)
+          | None => f :: assemble fuel' gs os fr (S p)
+          end
+      end
+  end.
+
+Fixpoint regroup (ex : expo) (t : utree) : utree :=
+  match t with
+  | UNode n kids =>
+      let kids' := map (regroup ex) kids in
+      match expo_of ex n with
+      | [] => UNode n kids'
+      | gs =>
+          let e := length gs in
+          UNode n (assemble (S (length kids')) gs (firstn e kids') (skipn e kids') 0)
+      end
+  | other => other
+  end.
+
+(* the unfolding to depth k of a tree given to a greater depth *)
+Fixpoint cut (k : nat) (t : utree) {struct t} : utree :=
+  match t with
+  | UNode n kids =>
+      match k with
+      | O => UCut n
+      | S k' => UNode n (map (cut k') kids)
+      end
+  | other => other
+  end.
+
+(* what the caller sees of a result of the machine *)
+Definition view (ex : expo) (k : nat) (r : result) : result :=
+  match r with
+  | ROk t => ROk (cut k (regroup ex t))
+  | other => other
+  end.
+
+(* depth, type universe (with the exposed oneofs), calls per thread, schedule (incl. the drain), the hook
+   each scheduled thread was at after its step, the results of the completed calls *)
 Inductive c10case :=
-| C10Case (k : N) (g : graph) (calls : list (list name)) (sched : list N) (trace : list N) (res : list (list obs)).
+| C10Case (k : N) (g : graph) (ex : expo) (calls : list (list name)) (sched : list N) (trace : list N) (res : list (list obs)).
 
-Definition obs_ok (k : nat) (g : graph) (n : name) (m : result) (o : obs) : bool :=
+Definition obs_ok (d : disc) (ex : expo) (k : nat) (g : graph) (n : name) (m : result) (o : obs) : bool :=
   match o with
-  | ORes r => result_eqb m r
-  | OSame b =>
-      if result_eqb m (result_solo k g n) then b
+  | ORes r _ => result_eqb (view ex k m) r
+  | OCall cls solo_cls same =>
+      if result_eqb m (result_solo k g n) then
+        N.eqb cls solo_cls &&
+        match m, d with
+        | RErr, Unguarded => true   (* without the lock the TEXT of a build error (the path to the failing
+                                       field) depends on what other threads have registered meanwhile,
+                                       which the model does not track; the class is still compared *)
+        | _, _ => same
+        end
       else match m with
-           | RErr | RNil => negb b   (* the codec call fails: NewRoot got no schema *)
+           | RErr | RUnlinked => negb same && N.eqb cls 1    (* NewRoot got another error, or an error where alone it gets a schema *)
+           | RNil => negb same && negb (N.eqb cls 0)
            | ROk _ => true      (* a schema with an unlinked part: depends on the message *)
            end
   end.
 
-Fixpoint obs_list_ok (k : nat) (g : graph) (ns : list name) (ms : list result) (os : list obs) : bool :=
+Fixpoint obs_list_ok (d : disc) (ex : expo) (k : nat) (g : graph) (ns : list name) (ms : list result) (os : list obs) : bool :=
   match ms, os with
   | [], [] => true
   | m :: mr, o :: or =>
       match ns with
-      | n :: nr => obs_ok k g n m o && obs_list_ok k g nr mr or
+      | n :: nr => obs_ok d ex k g n m o && obs_list_ok d ex k g nr mr or
       | [] => false
       end
   | _, _ => false
   end.
 
-Fixpoint threads_ok (k : nat) (g : graph) (calls : list (list name)) (ms : list (list result)) (os : list (list obs)) : bool :=
+Fixpoint threads_ok (d : disc) (ex : expo) (k : nat) (g : graph) (calls : list (list name)) (ms : list (list result)) (os : list (list obs)) : bool :=
   match calls, ms, os with
   | [], [], [] => true
-  | c :: cr, m :: mr, o :: or => obs_list_ok k g c m o && threads_ok k g cr mr or
+  | c :: cr, m :: mr, o :: or => obs_list_ok d ex k g c m o && threads_ok d ex k g cr mr or
   | _, _, _ => false
+  end.
+
+(* ---- identity of the returned objects ------------------------------------------------- *)
+(* the cells handed to thread t, in order *)
+Definition cells_of (t : tid) (rs : list (tid * name * cellid)) : list cellid :=
+  map (fun x => snd x) (filter (fun x => Nat.eqb (fst (fst x)) t) rs).
+
+(* per result of a thread, the cell it handed out (None: no schema) *)
+Fixpoint cells_for (ms : list result) (cs : list cellid) : list (option cellid) :=
+  match ms with
+  | [] => []
+  | ROk _ :: r =>
+      match cs with
+      | c :: cr => Some c :: cells_for r cr
+      | [] => None :: cells_for r []
+      end
+  | _ :: r => None :: cells_for r cs
+  end.
+
+Fixpoint id_pairs (cs : list (option cellid)) (os : list obs) : list (cellid * N) :=
+  match cs, os with
+  | Some c :: cr, ORes (ROk _) id :: or => (c, id) :: id_pairs cr or
+  | _ :: cr, _ :: or => id_pairs cr or
+  | _, _ => []
+  end.
+
+(* the same object in the model iff the same pointer in the implementation *)
+Definition ids_consistent (ps : list (cellid * N)) : bool :=
+  forallb (fun a => forallb (fun b => Bool.eqb (Nat.eqb (fst a) (fst b)) (N.eqb (snd a) (snd b))) ps) ps.
+
+Fixpoint all_id_pairs (t : tid) (rs : list (tid * name * cellid)) (ms : list (list result)) (os : list (list obs)) : list (cellid * N) :=
+  match ms, os with
+  | m :: mr, o :: or => id_pairs (cells_for m (cells_of t rs)) o ++ all_id_pairs (S t) rs mr or
+  | _, _ => []
   end.
 
 Definition c10_check_with (d : disc) (c : c10case) : bool :=
   match c with
-  | C10Case k g calls sched trace res =>
+  | C10Case k g ex calls sched trace res =>
       let k' := N.to_nat k in
-      let (st, tr) := run_trace d k' g calls (map N.to_nat sched) in
-      nlist_eqb tr trace && threads_ok k' g calls (results st) res
+      let sch := map N.to_nat sched in
+      (* the forced schedules of the harness run on a real sync.Mutex with every other
+         goroutine parked: Unlock wakes the longest-waiting goroutine, which takes the lock
+         and runs up to its cache.lookup hook before the harness regains control — the
+         first-come-first-served hand-off policy over the machine of Conc.v *)
+      let (st, tr) := hrun_trace fifo_grant d k' g calls sch in
+      let rs := rets d k' g calls (expand fifo_grant d k' g sch (init calls)) in
+      nlist_eqb tr trace && threads_ok d ex k' g calls (results st) res &&
+      ids_consistent (all_id_pairs 0 rs (results st) res)
   end.
 
 (* the model is evaluated under the discipline the Go source follows now *)
